@@ -5,7 +5,7 @@ from pyparsing import (
     ParserElement, CaselessKeyword, Literal, Regex, LineEnd, StringEnd,
     Word, Forward, FollowedBy, White, Group, Located, SkipTo, Combine,
     Opt, ParseException, ParseSyntaxException, alphas, alphanums,
-    delimited_list,
+    delimited_list, original_text_for,
 )
 from .exceptions import SyntaxError
 from .expr import (
@@ -444,8 +444,10 @@ unclosed_quoted_string = Regex(r'"[^"\n]+') + FollowedBy(LineEnd())
 data_clause = quoted_string | unquoted_string
 data_stmt = (
     data_kw.suppress() -
-    (data_clause | comma)[...] +
-    unclosed_quoted_string[...]
+    original_text_for(
+        (data_clause | comma)[...] +
+        unclosed_quoted_string[...]
+    )
 ).set_name('data_stmt')
 
 rem_stmt = (rem_kw + SkipTo(LineEnd())).suppress().set_name('rem_stmt')
@@ -1550,8 +1552,9 @@ def parse_screen_stmt(toks):
 
 @parse_action(data_stmt)
 def parse_data(s, loc, toks):
-    # Re-join data items and have them properly parsed again
-    s = ' '.join(str(t) for t in toks)
+    # The items are parsed from the text as it is written (joining
+    # the tokens with blanks put a blank into an item like a"b")
+    s = str(toks[0]) if toks else ''
     ret = DataStmt(s)
 
     if ret.items is None:
